@@ -219,6 +219,9 @@ def rules(ctx):
     location_names_are_total(ctx, "R4")
     # a wrong 3-opt delta lets the cycle search 'improve' for ever; a forgotten tour makes the decoding pop() from an empty list;
     # a dummy id handed to improve_depots panics (rules shared with C15, C14, C11)
+    before = len(ctx.obligations)
+    formulas.flow_network_details(ctx, "R4")
+    ctx.obligations[before:] = [o for o in ctx.obligations[before:] if "connection-bound" in o.id or "arc-direction" in o.id]
     from .C17 import can_reach_kind_table
     can_reach_kind_table(ctx, "R4")      # depots stay connectable whatever the configuration says (else: infeasible flow, unwrap panics)
     from .C15 import three_opt_reconnection
